@@ -41,16 +41,21 @@ struct TaggedBase : BCP {
     void eval_grad_f_grad_g_prod(crvec x, crvec y, rvec a, rvec b) const REQ(B_gfggp) {            \
         tag(*d, "grad_f_grad_g_prod"); k_grad_f(*d, x.data(), a.data());                           \
         k_grad_g_prod(*d, x.data(), y.data(), b.data()); }                                         \
-    void eval_grad_L(crvec x, crvec y, rvec o, rvec) const REQ(B_grad_L) {                         \
-        tag(*d, "grad_L"); k_grad_L(*d, x.data(), y.data(), o.data()); }                           \
+    void eval_grad_L(crvec x, crvec y, rvec o, rvec wn) const REQ(B_grad_L) {                      \
+        tag(*d, "grad_L"); k_grad_L(*d, x.data(), y.data(), o.data());                             \
+        work_vec(*d, "grad_L", "work_n", wn.data(), wn.size(), d->n); }                            \
     real_t eval_ψ(crvec x, crvec y, crvec S, rvec yh) const REQ(B_psi) {                           \
         tag(*d, "psi"); return k_psi(*d, x.data(), y.data(), S.data(), S.size(), lb(), ub(), yh.data()); } \
-    void eval_grad_ψ(crvec x, crvec y, crvec S, rvec o, rvec, rvec) const REQ(B_grad_psi) {        \
-        tag(*d, "grad_psi"); k_grad_psi(*d, x.data(), y.data(), S.data(), S.size(), lb(), ub(), o.data()); } \
-    real_t eval_ψ_grad_ψ(crvec x, crvec y, crvec S, rvec o, rvec, rvec) const REQ(B_psi_grad_psi) { \
+    void eval_grad_ψ(crvec x, crvec y, crvec S, rvec o, rvec wn, rvec wm) const REQ(B_grad_psi) {  \
+        tag(*d, "grad_psi"); k_grad_psi(*d, x.data(), y.data(), S.data(), S.size(), lb(), ub(), o.data()); \
+        work_vec(*d, "grad_psi", "work_n", wn.data(), wn.size(), d->n);                            \
+        work_vec(*d, "grad_psi", "work_m", wm.data(), wm.size(), d->m); }                          \
+    real_t eval_ψ_grad_ψ(crvec x, crvec y, crvec S, rvec o, rvec wn, rvec wm) const REQ(B_psi_grad_psi) { \
         tag(*d, "psi_grad_psi"); std::vector<double> yh(d->m);                                     \
         real_t p = k_psi(*d, x.data(), y.data(), S.data(), S.size(), lb(), ub(), yh.data());       \
-        k_grad_psi(*d, x.data(), y.data(), S.data(), S.size(), lb(), ub(), o.data()); return p; }  \
+        k_grad_psi(*d, x.data(), y.data(), S.data(), S.size(), lb(), ub(), o.data());              \
+        work_vec(*d, "psi_grad_psi", "work_n", wn.data(), wn.size(), d->n);                        \
+        work_vec(*d, "psi_grad_psi", "work_m", wm.data(), wm.size(), d->m); return p; }            \
     void eval_hess_L_prod(crvec x, crvec y, real_t s, crvec v, rvec o) const REQ(B_hess_L_prod) {  \
         tag(*d, "hess_L_prod"); k_hess_L_prod(*d, x.data(), y.data(), s, v.data(), o.data()); }    \
     void eval_hess_ψ_prod(crvec x, crvec y, crvec S, real_t s, crvec v, rvec o) const REQ(B_hess_psi_prod) { \
